@@ -3,8 +3,8 @@ package gateway
 import (
 	"errors"
 
+	"github.com/hydraide/hydraide/app/core/hydra/swamp/treasure/msgpackpatch"
 	hydrapb "github.com/hydraide/hydraide/sdk/go/hydraidego/v3/hydraidepbgo"
-	"github.com/vmihailenco/msgpack/v5"
 )
 
 // buildBodyCapPredicate validates a Cap message intended for an explicit-
@@ -77,7 +77,7 @@ func decodeMsgpackMapForCap(body []byte) (map[string]interface{}, error) {
 		return map[string]interface{}{}, nil
 	}
 	var decoded map[string]interface{}
-	if err := msgpack.Unmarshal(body, &decoded); err != nil {
+	if err := msgpackpatch.UnmarshalChecked(body, &decoded); err != nil {
 		return nil, err
 	}
 	if decoded == nil {
